@@ -48,6 +48,14 @@ def templates(rng, g):
     # the handler *expression itself* is unneeded when nothing is raised (seeded change S03g evaluated it up front)
     out.append(("try-handler-expr-unneeded", f"{gi()} {{X}} ㅅㄷㅎㄷ"))
     out.append(("try-handler-arg-unneeded", f"{gi()} {{X}} (ㄱ ㅇㄱ ㄴ ㅇㄱ ㅅㄷㅎㄷ ㅎ) ㅎㄷ"))
+    # an unused argument *captured* by a function value that travels through the deep-forcing positions (ㅅㄷ result, ㄱㅅ
+    # argument, ㅅㅈ key): deep forcing descends into lists / dictionaries / exceptions, never into a function's captured
+    # environment (seeded change S03h)
+    out.append(("captured-unused-through-try", f"(({{X}} ((ㅈ ㅎ) ㅎ) ㅎㄴ) ((ㄱㄴ ㅎ) ㅎ) ㅅㄷㅎㄷ) ㅎㄱ"))
+    out.append(("captured-unused-through-try-list", f"((({{X}} ((ㅈ ㅎ) ㅎ) ㅎㄴ) ㅁㄹㅎㄴ) (ㄱ ㅎ) ㅅㄷㅎㄷ) ㅈㄷㅎㄴ"))
+    out.append(("captured-unused-through-return", f"({{X}} ((ㅈ ㅎ) ㅎ) ㅎㄴ) ㄱㅅㅎㄴ"))
+    out.append(("captured-unused-as-key", f"({{X}} ((ㅈ ㅎ) ㅎ) ㅎㄴ) ㄴ ㅅㅈㅎㄷ"))
+    out.append(("captured-unused-in-exception", f"(((ㄷ ({{X}} ((ㅈ ㅎ) ㅎ) ㅎㄴ) ㄷㅂㅎㄷ) ㄷㅈㅎㄴ) (ㄱ ㄱㅇㄱ ㅎㄴ ㅎ) ㅅㄷㅎㄷ)"))
     out.append(("try-handler-list-unneeded", f"({gi()} ㅁㄹㅎㄴ) {{X}} ㅅㄷㅎㄷ"))
     out.append(("fold-init-unused", f"(ㄴ ㅁㄹㅎㄴ) {{X}} (ㄴㅇㄱ ㅎ) ㅅㄹㅎㄹ".replace("(ㄴㅇㄱ ㅎ)", "(ㄱㅇㄱ ㅎ)")))
     # arguments handed to a user function *by a built-in* (fold / filter / pipe / spread / collect) that the
@@ -102,7 +110,7 @@ SPEC = {
     'cases': cases,
     'big': True,
     'stream': 'C03 marked-position stream',
-    'rule': '47 templates with a marked non-strict position (unused argument, arguments and list elements passed on by fold / filter / pipe (also results of intermediate pipe stages) / spread / collect / map to functions that ignore them, exception contents built / thrown / caught but not inspected, unselected Boolean branch, operands after the '
+    'rule': '52 templates with a marked non-strict position (unused argument, arguments and list elements passed on by fold / filter / pipe (also results of intermediate pipe stages) / spread / collect / map to functions that ignore them, exception contents built / thrown / caught but not inspected, unselected Boolean branch, operands after the '
             'deciding one of Boolean ㄱ / ㄷ, uninspected list elements / dictionary values, map over unused elements, ㄴ after '
             'the first difference, handler of a ㅅㄷ that does not raise, captured but unused argument) × random surrounding '
             'sub-expressions × 8 payloads (user exception, type error, non-terminating recursion bounded only by the '
